@@ -31,6 +31,7 @@ type event struct {
 	Ev     string  `json:"ev"`
 	I      int     `json:"i,omitempty"`
 	RPC    string  `json:"rpc,omitempty"`
+	Wire   string  `json:"wire,omitempty"`
 	Result *Result `json:"result,omitempty"`
 }
 
@@ -49,7 +50,7 @@ func ChildMain() {
 				fmt.Fprintf(os.Stderr, "child: bad case: %v\n", jerr)
 				os.Exit(4)
 			}
-			res := runCase(c, func(i int, rpc string) { _ = enc.Encode(event{Ev: "start", I: i, RPC: rpc}) })
+			res := runCase(c, func(i int, rpc, wire string) { _ = enc.Encode(event{Ev: "start", I: i, RPC: rpc, Wire: wire}) })
 			_ = enc.Encode(event{Ev: "result", Result: &res})
 			if res.Dirty {
 				os.Exit(0) // leaked work may still be running: start from a clean process
@@ -236,7 +237,7 @@ func execChild(c Case) (res Result, err error) {
 			}
 			return Result{}, fmt.Errorf("worker not writable: %w", err)
 		}
-		lastI, lastRPC := -9, "(startup)"
+		lastI, lastRPC, lastWire := -9, "(startup)", ""
 		var partial []string
 		// One event must arrive within the hang bound (+ generous margin for
 		// building a multi-MiB input and for a loaded machine).
@@ -262,11 +263,15 @@ func execChild(c Case) (res Result, err error) {
 						return Result{Setup: []string{"setup:worker-died-while-preparing-input"}, Dirty: true, Harness: true}, nil
 					}
 					res := Result{Fail: deathFailure(c, stderr, exit, lastI, lastRPC), Setup: partial, Dirty: true}
+					if lastWire != "" && lastWire != "ok" {
+						// the request in flight is not deliverable by the transport: outside the domain
+						res.OutOfDomain, res.Fail = []string{res.Fail.Signature}, nil
+					}
 					return res, nil
 				}
 				switch ev.Ev {
 				case "start":
-					lastI, lastRPC = ev.I, ev.RPC
+					lastI, lastRPC, lastWire = ev.I, ev.RPC, ev.Wire
 					continue
 				case "result":
 					if ev.Result.Dirty {
@@ -281,6 +286,9 @@ func execChild(c Case) (res Result, err error) {
 				current = nil
 				if lastI == setupPhase {
 					return Result{Setup: []string{"setup:worker-timeout-while-preparing-input"}, Dirty: true, Harness: true}, nil
+				}
+				if lastWire != "" && lastWire != "ok" {
+					return Result{OutOfDomain: []string{"C19/hang-past-deadline:" + lastRPC}, Dirty: true}, nil
 				}
 				f := &Fail{Signature: "C19/hang-past-deadline:" + lastRPC, Timing: true, ReqIndex: lastI,
 					Msg: fmt.Sprintf("the server process did not answer within %v while request #%d (%s) was in flight (deadline %v); process killed\nstderr:\n%s", budget, lastI, lastRPC, reqDeadline, headTail(w.stderr.String(), 6000))}
